@@ -282,11 +282,11 @@ class HTTPConnection(_HTTPConnection):
     def connect(self) -> None:
         self.sock = self._new_conn()
         if self._tunnel_host:
-            # If we're tunneling it means we're connected to our proxy.
-            self._has_connected_to_proxy = True
-
             # TODO: Fix tunnel so it doesn't depend on self.sock state.
             self._tunnel()
+
+            # The proxy accepted the tunnel: from here on failures are the origin's.
+            self._has_connected_to_proxy = True
 
         # If there's a proxy to be connected to we are fully connected.
         # This is set twice (once above and here) due to forwarding proxies
@@ -726,10 +726,10 @@ class HTTPSConnection(HTTPConnection):
                 elif self._tunnel_scheme == "http":
                     self.proxy_is_verified = False
 
-                # If we're tunneling it means we're connected to our proxy.
-                self._has_connected_to_proxy = True
-
                 self._tunnel()
+
+                # The proxy accepted the tunnel: from here on failures are the origin's.
+                self._has_connected_to_proxy = True
                 # Override the host with the one we're requesting data from.
                 server_hostname = typing.cast(str, self._tunnel_host)
 
